@@ -31,8 +31,11 @@ POOLS = {
     "digits": ["1", "22", "com", "a"],
     # labels that are string-suffixes of each other: whole labels must be compared
     "suffixy": ["a", "ba", "a-b", "com"],
+    # many sibling labels under one parent / long label chains
+    "wide": ["a", "b", "c", "d", "e", "f", "g", "h", "i"],
+    "deep": ["a", "b"],
 }
-POOL_ORDER = ["ab", "abc", "abcd", "real", "idn", "edge", "digits", "suffixy"]
+POOL_ORDER = ["ab", "abc", "abcd", "real", "idn", "edge", "digits", "suffixy", "wide", "deep"]
 URL_FORMS = ["http", "bare", "port", "schemeless", "auth", "split", "https_q"]
 NONSTRING = ["none", "int", "list", "bytes"]
 FAULT_KINDS = ["iter_cancel", "add_raises"]
@@ -171,11 +174,15 @@ def generate(seed, run, tier):
     if family == "bundled":
         return generate_bundled(crng, srng)
 
-    pool = weighted_choice(crng, [("ab", 30), ("abc", 25), ("abcd", 8), ("real", 12), ("idn", 12), ("edge", 8), ("digits", 5), ("suffixy", 6)])
+    pool = weighted_choice(crng, [("ab", 30), ("abc", 25), ("abcd", 8), ("real", 12), ("idn", 12), ("edge", 8), ("digits", 5), ("suffixy", 6), ("wide", 5), ("deep", 5)])
     alphabet = POOLS[pool]
     if pool in ("real", "idn", "edge", "digits", "abcd", "suffixy") and crng.random() < 0.5:
         alphabet = alphabet[: crng.choice([3, 4])]
     depth = crng.choice([2, 3, 3])
+    if pool == "wide":
+        depth = 2
+    elif pool == "deep":
+        depth = crng.choice([5, 6])
     cap = 64 if tier == "quick" else 200
     length = geometric(crng, 8 if len(alphabet) <= 2 else 12, cap, lo=1)
     spell_mode = crng.choice(["plain", "plain", "varied"])
@@ -191,6 +198,8 @@ def generate(seed, run, tier):
     def draw_host(maxdepth):
         while True:
             n = wrng.choice([1, 2, 2, 3, 3, 3, 4][: 1 + 2 * maxdepth])
+            if maxdepth > 4 and wrng.random() < 0.5:
+                n = wrng.randint(3, maxdepth)
             n = min(n, maxdepth)
             labels = [wrng.choice(alphabet) for _ in range(n)]
             if not is_ip_like(labels):
@@ -363,7 +372,17 @@ class Run(object):
         self.iters = {}
         self.universe = None
         if config["family"] != "bundled":
-            self.universe = all_hosts(config["alphabet"], config["depth"] + 1)
+            alphabet = config["alphabet"]
+            if len(alphabet) <= 4:
+                self.universe = all_hosts(alphabet, config["depth"] + 1)
+            else:
+                # wide alphabets: all hosts of depth <= 2, then only extensions on
+                # the left by the first two labels
+                self.universe = all_hosts(alphabet, 2)
+                layer = [h for h in self.universe if len(h) == 2]
+                for _ in range(config["depth"] - 1):
+                    layer = [(l,) + h for h in layer for l in alphabet[:2]]
+                    self.universe.extend(layer)
         self.raw_added = []
         self.sweeps = 0
 
